@@ -923,6 +923,9 @@ func leafBytes(n parquet.Node, v reflect.Value) []byte {
 		binary.LittleEndian.PutUint32(b[8:], x.Milliseconds)
 		return b
 	case json.RawMessage:
+		if !json.Valid(x) {
+			panic("leafBytes: json.RawMessage does not hold a JSON text")
+		}
 		return append([]byte{}, x...)
 	}
 	isBytes := v.Kind() == reflect.String || (v.Kind() == reflect.Slice && v.Type().Elem().Kind() == reflect.Uint8)
@@ -1013,8 +1016,10 @@ func unwrap(v reflect.Value, dyn bool) (reflect.Value, bool) {
 
 // isNullAt: is the Go value null at an optional node.  Statically typed
 // fields: the documented rule (goNull).  Values held by an interface: null is
-// the nil interface (or a nil pointer / slice / map in it) - an interface
-// distinguishes "no value" from a zero value like a pointer does.
+// the nil interface only - an interface distinguishes "no value" from a zero
+// value like a pointer does; whatever it holds (a zero number, an empty
+// string, a nil slice or map) is a present value.  (A nil POINTER held by an
+// interface is not generated.)
 func isNullAt(v reflect.Value, dyn bool) bool {
 	if !v.IsValid() {
 		return true
@@ -1022,9 +1027,8 @@ func isNullAt(v reflect.Value, dyn bool) bool {
 	if !dyn {
 		return goNull(v)
 	}
-	switch v.Kind() {
-	case reflect.Pointer, reflect.Slice, reflect.Map:
-		return v.IsNil()
+	if v.Kind() == reflect.Pointer && v.IsNil() {
+		panic("mValue: nil pointer held by an interface (not generated)")
 	}
 	return false
 }
@@ -2095,8 +2099,8 @@ func (g *gen) fillN(n parquet.Node, v reflect.Value, path string) {
 	case reflect.Slice:
 		if v.Type().Elem().Kind() == reflect.Uint8 {
 			fixed := n != nil && n.Leaf() && n.Type().Kind() == parquet.FixedLenByteArray
-			if v.Type() == reflect.TypeOf(json.RawMessage(nil)) && n != nil && !n.Optional() {
-				fixed = true // a required column of JSON texts: the empty text is not JSON
+			if v.Type() == reflect.TypeOf(json.RawMessage(nil)) && n != nil {
+				fixed = true // the empty text is not JSON: nil (null) for an optional column only
 			}
 			if g.nullish(path) && !(fixed && !n.Optional()) { // a required fixed size column has no value for a nil slice
 				if g.rng.Intn(2) == 0 && !fixed {
@@ -2108,6 +2112,9 @@ func (g *gen) fillN(n parquet.Node, v reflect.Value, path string) {
 			switch {
 			case v.Type() == reflect.TypeOf(json.RawMessage(nil)):
 				b = []byte(genJSON[g.rng.Intn(len(genJSON))])
+				if _, ok := logicalOf(n).(*format.JsonType); !ok && b[0] == '"' {
+					b = []byte(`{"s":"x"}`) // a JSON string in a column without the json tag: known finding rawmessage-untagged-string
+				}
 			case n != nil && n.Leaf() && n.Type().Kind() == parquet.FixedLenByteArray:
 				b = make([]byte, n.Type().Length())
 				g.rng.Read(b)
@@ -2144,7 +2151,14 @@ func (g *gen) fillN(n parquet.Node, v reflect.Value, path string) {
 		old := g.cur
 		for i := 0; i < k; i++ {
 			g.cur = flags[i]
-			g.fillN(en, s.Index(i), path+"[]")
+			if e := s.Index(i); e.Kind() == reflect.Interface && en != nil && en == n {
+				// []any on a repeated node: each element is one value of the node
+				if x := g.anyFor(n, path+"[]", true); x.IsValid() {
+					e.Set(x)
+				}
+			} else {
+				g.fillN(en, e, path+"[]")
+			}
 		}
 		g.cur = old
 		v.Set(s)
